@@ -624,7 +624,12 @@ class AgreementMonitor(Monitor):
         w.listeners.append(self.on_event)
         self.blind_forced = {}  # namespec -> [(vt, sender nick, hosts not seen active)]
         self.forced_by = {}     # namespec -> nicks that forced a stopped-like state for it
+        self.forced_at = {}     # namespec -> [(time, nick)]
+        self.spawned_at = {}    # (nick, namespec) -> time of the last spawn
         self.admitted_inc = {}  # (observer nick, inc, peer nick) -> incarnation of the peer at its last CHECKING
+        self.tick_seen = {}     # (observer nick, inc, peer nick) -> (incarnation of the peer, counter of its last TICK)
+        self.undetectable = set()   # (observer nick, inc, peer nick): a restart whose first TICK counter was not lower
+        w.on_hook('ctx_tick', self.on_tick_received)
 
     def on_forced(self, inst, process, identifier, event_time, forced_state, reason):
         # a state forced by an instance that does not see (all) the Supervisors where the process truly runs
@@ -642,6 +647,7 @@ class AgreementMonitor(Monitor):
                       or other.identifier not in listed)]
         if int(forced_state) not in RUNNING_STATES:
             self.forced_by.setdefault(process.namespec, set()).add(inst.nick)
+            self.forced_at.setdefault(process.namespec, []).append((w.now, inst.nick))
         if blind and int(forced_state) not in RUNNING_STATES:
             self.blind_forced.setdefault(process.namespec, []).append((vt(w), inst.nick, blind))
             self.count('forced_states_without_seeing_the_host')
@@ -656,8 +662,15 @@ class AgreementMonitor(Monitor):
             return ''
         # (the copy may also have started between the emission of the forced state and its delivery)
         if process.forced_state is not None and process.forced_state not in RUNNING_STATES and \
-                process.state in RUNNING_STATES and self.forced_by.get(namespec, set()) - {nick}:
-            return ':state-forced-over-a-running-copy-unknown-to-the-forcer'
+                process.state in RUNNING_STATES:
+            if self.blind_forced.get(namespec):
+                return ':state-forced-over-a-running-copy-unknown-to-the-forcer'
+            # a copy spawned after (or at the instant of) a forced state emitted by another instance
+            hosts = [i for i in w.live() if i.running_truth().get(namespec) in RUNNING_STATES]
+            for t, forcer in self.forced_at.get(namespec, ()):
+                if forcer != nick and any(self.spawned_at.get((h.nick, namespec), -1.0) >= t for h in hosts):
+                    return ':state-forced-over-a-running-copy-unknown-to-the-forcer'
+            return ''
         return ''
 
     def on_instance_state(self, inst, identifier, new_state):
@@ -677,6 +690,9 @@ class AgreementMonitor(Monitor):
         if ev['k'] == 'rpc_ret' and ev['method'] == 'supvisors.get_all_local_process_info' and ev['src'] != 'user':
             # the observer has just taken its snapshot of that peer (loaded when the notification is processed)
             self.snapshot_taken.add((ev['src'], ev['dst']))
+            return
+        if ev['k'] == 'spawn':
+            self.spawned_at[(ev['inst'], ev['namespec'])] = ev['t']
             return
         if ev['k'] == 'pub_dropped':
             # queued while the peer was seen active, dropped by publish() because it is not any more
@@ -700,13 +716,27 @@ class AgreementMonitor(Monitor):
                 self.unpublished.setdefault((inst.nick, src.nick), set()).add(ev['namespec'])
                 self.count('events_after_snapshot_before_admission')
 
+    def on_tick_received(self, inst, status, event):
+        w = self.run.world
+        peer = w.by_identifier.get(status.identifier)
+        key = (inst.nick, inst.inc, peer)
+        peer_inc = w.incs.get(peer, 0)
+        previous = self.tick_seen.get(key)
+        if previous is not None and previous[0] != peer_inc and event['sequence_counter'] >= previous[1]:
+            # a new incarnation whose first TICK received does not carry a lower counter than the last one of the
+            # previous incarnation: the code cannot see this restart (C07 finding)
+            self.undetectable.add(key)
+            self.count('restarts_with_a_counter_not_lower')
+        self.tick_seen[key] = (peer_inc, event['sequence_counter'])
+
     def mechanism(self, observer, namespec, identifiers):
         w = self.run.world
         oinst = w.instances.get(observer)
         for identifier in (identifiers or list(w.by_identifier)):
             peer = w.by_identifier.get(identifier)
             admitted = self.admitted_inc.get((observer, oinst.inc if oinst else 0, peer))
-            if admitted is not None and peer != observer and admitted != w.incs.get(peer, 0):
+            if admitted is not None and peer != observer and admitted != w.incs.get(peer, 0) and \
+                    (observer, oinst.inc if oinst else 0, peer) in self.undetectable:
                 # the observer still holds the process table of a previous incarnation of that peer: its restart has
                 # not been detected (C07 finding: TICK counter not lower after the restart)
                 return ':restart-of-the-host-not-detected'
